@@ -41,7 +41,23 @@ TExport ==
   /\ Chk("ExportSucceeds", Ev.exported)
   /\ Chk("ExportedProjectRerendersTheSame", Ev.refused \/ Ev.same)
   /\ UNCHANGED tvars
-TNext == TWrite1 \/ TRead1 \/ TModify \/ TWrite2 \/ TRead2 \/ TRerender \/ TExport
+(* beyond the listed properties (C18 speaks of the native format): the KROME copy of the same network, read back by the KROME reader.
+   Every clause is a NOTE: reported in the evidence, never blocking, never a violation. *)
+Note(nm, c) == IF c THEN TRUE ELSE PrintT(<<"NOTE", Traces[tid].tid, l, nm>>)
+TKromeCopy ==
+  /\ IsEv("KromeCopy")
+  /\ Note("KromeCopyWritten", Ev.ok)
+  /\ IF Ev.ok
+       THEN LET m == KromeCopy(net) IN
+            /\ Note("KromeCopy:ReactionCount", Len(Ev.recs) = Len(m))
+            /\ \A k \in DOMAIN m : k \in DOMAIN Ev.recs =>
+                 /\ Note("KromeCopy:SpeciesWithMultiplicity", SeqBag(Ev.recs[k].r) = m[k].r /\ SeqBag(Ev.recs[k].p) = m[k].p)
+                 /\ Note("KromeCopy:Window", Ev.recs[k].tmin = m[k].tmin /\ Ev.recs[k].tmax = m[k].tmax)
+                 /\ Note("KromeCopy:Index", Ev.recs[k].idx = m[k].idx)
+                 /\ Note("KromeCopy:RateValue", Ev.same_rate[k])
+       ELSE TRUE
+  /\ UNCHANGED tvars
+TNext == TWrite1 \/ TRead1 \/ TModify \/ TWrite2 \/ TRead2 \/ TRerender \/ TExport \/ TKromeCopy
 TSpec == TInit /\ [][TNext]_<<tvars, tid, l>>
 Track ==
   /\ Chk("Inv:ReadWriteId", ReadWriteId)
